@@ -112,6 +112,11 @@ fn split_body(body: &[u8]) -> Vec<(Vec<u8>, u32)> {
 	out
 }
 
+thread_local! {
+	/// set while the reference request of the differential oracle is being built
+	static REFERENCE: std::cell::Cell<bool> = const { std::cell::Cell::new(false) };
+}
+
 const ACCEPTED: [&str; 6] = ["application/json", "application/json; charset=utf-8", "application/json;charset=utf-8", "application/json-rpc", "application/json-rpc;charset=utf-8", "application/json-rpc; charset=utf-8"];
 const REJECTED: [&str; 8] = ["application/jsonx", "text/json", "application/json; charset=latin1", "application/json ;charset=utf-8", "text/plain", "application/x-www-form-urlencoded", "json", "application/json,application/json"];
 
@@ -187,7 +192,10 @@ pub async fn scenario() {
 				};
 				let lead = if lead.len() > 40 { String::new() } else { lead.clone() };
 				let base = format!("{lead}{{\"jsonrpc\":\"2.0\",\"id\":{nonce},\"method\":\"echo\",\"params\":[\"\"]}}");
-				if rt::chance("trailing_pad", 1, 3) {
+				if l > 150 && rt::chance("garbage_beyond_limit", 1, 5) {
+					// not JSON at all, and too large
+					format!("{lead}{}", "x".repeat(l - lead.len()))
+				} else if rt::chance("trailing_pad", 1, 3) {
 					// a complete call followed by whitespace: what counts is the size of the body, not of the call
 					format!("{base}{}", " ".repeat(l.saturating_sub(base.len())))
 				} else {
@@ -201,9 +209,21 @@ pub async fn scenario() {
 		let with_len = rt::chance("with_len", 1, 2);
 		let trailers = !over_stream && rt::chance("trailers", 1, 6);
 		rt::event("request", format!("{method} ct={cts:?} with_len={with_len} trailers={trailers} frames={:?}", frames.iter().map(|f| (String::from_utf8_lossy(&f.0).to_string(), f.1)).collect::<Vec<_>>()));
+		// WebSocket upgrade headers on a request that is not a GET: still an ordinary HTTP request (an upgrade is a GET)
+		let upgrade_headers: u32 = if method != "GET" && rt::chance("upgrade_headers", 1, 8) { 1 + rt::draw("with_ws_key", 2) } else { 0 };
+		if upgrade_headers > 0 {
+			rt::probe("upgrade_headers_on_non_get");
+		}
 		let build = |frames: Vec<(Vec<u8>, u32)>, with_len: bool, trailers: bool| {
 			let total: usize = frames.iter().map(|f| f.0.len()).sum();
 			let mut b = http::Request::builder().method(method).uri("/").header("host", "sim.invalid");
+			// (the reference request is built with `trailers == false` and one frame: it never carries these headers)
+			if upgrade_headers > 0 && !(frames.len() == 1 && with_len && !trailers && frames[0].1 == 0 && REFERENCE.with(|r| r.get())) {
+				b = b.header("connection", "upgrade").header("upgrade", "websocket");
+				if upgrade_headers > 1 {
+					b = b.header("sec-websocket-key", "dGhlIHNhbXBsZSBub25jZQ==").header("sec-websocket-version", "13");
+				}
+			}
 			for ct in &cts {
 				b = b.header("content-type", ct.as_str());
 			}
@@ -281,14 +301,19 @@ pub async fn scenario() {
 			}
 		}
 		// ---- reference: the same bytes in one frame with Content-Length, directly at the tower service ----
-		let reference = world::collect_response(world.tower_call(build(vec![(body.clone(), 0)], true, false)).await).await;
+		REFERENCE.with(|r| r.set(true));
+		let reference_req = build(vec![(body.clone(), 0)], true, false);
+		REFERENCE.with(|r| r.set(false));
+		let reference = world::collect_response(world.tower_call(reference_req).await).await;
 		let same_body = match (serde_json::from_slice::<Value>(&got.body), serde_json::from_slice::<Value>(&reference.body)) {
 			(Ok(a), Ok(b)) => a == b,
 			_ => got.body == reference.body,
 		};
 		if got.status != reference.status || (!same_body && !body_lost) {
 			let first_ws_only = frames.first().is_some_and(|f| f.0.iter().all(|b| b.is_ascii_whitespace()));
-			let sig = if first_ws_only { "first-chunk-empty-or-whitespace" } else if !with_len { "no-content-length" } else { "chunking" };
+			let not_json = !matches!(body.iter().find(|b| !b.is_ascii_whitespace()), Some(b'{' | b'['));
+			let oversized = exact_limit.is_some_and(|l| body.len() > l);
+			let sig = if not_json && oversized { "oversized-non-json-body" } else if upgrade_headers > 0 { "upgrade-headers-on-a-post" } else if first_ws_only { "first-chunk-empty-or-whitespace" } else if !with_len { "no-content-length" } else { "chunking" };
 			rt::violate(
 				P,
 				"chunking-changes-answer",
